@@ -32,3 +32,52 @@ PROPS = {
             'sampling, not proof'],
     },
 }
+
+MANIFEST_TEXT = {
+    'C05': {
+        'text': ('Seeded search over schedules: thousands of simulated runs, '
+                 'each a different interleaving of transformations, queries, '
+                 'writes into results, open/close/drop/garbage-collection '
+                 '(between and inside library calls) and clock jumps over '
+                 'several disk-backed and in-memory files; every live file is '
+                 'compared with an independent deep snapshot after every '
+                 'step. This is the level the property asks for: three of its '
+                 'quantifiers are histories and schedules (when the collector '
+                 'runs, close order/multiplicity, later writes), which only a '
+                 'simulator that owns the GC trigger, handle lifecycle and '
+                 'clock can reach. Evidence, not proof.'),
+        'design_ref': 'DESIGN.md section 4 (C05)',
+        'note': ('Trusted: snapshot/compare code, netCDF4 stub producers, '
+                 'reference CAMx encoder. Not generated: inplace=True, '
+                 'WrapPNC, r+ memmaps (documented sharing); a second close() '
+                 'of the raw netCDF4.Dataset returned by save() (upstream '
+                 'code).'),
+        'technique': 'deterministic simulation: seeded schedule + GC/close/clock fault injection against a per-slot snapshot model',
+    },
+}
+
+NOT_APPLICABLE = {
+    'C01': 'pure function of (file, operation sequence): no clock, handle, finaliser, registry or disk state enters any conjunct, so there is no schedule or fault to sample',
+    'C02': 'hyperslab selection is a pure function of arrays and selectors; nothing for a simulator to schedule or fault',
+    'C03': 'axis reductions are pure functions of arrays and reducer',
+    'C04': 'concatenation/splitting is in-memory and pure; the multi-file helpers only add pncopen, whose history dependence is decided under C15',
+    'C06': 'element-wise arithmetic, eval and mask are pure functions of the operands (the aliasing corner of eval is decided under C05)',
+    'C10': 'every conjunct is a pure function of file and operation sequence; the clock touches only CDATE/CTIME/WDATE/WTIME and hash order only the order of VAR-LIST, neither of which the property mentions',
+    'C11': 'window georeferencing is pure arithmetic on attributes and indices',
+    'C12': 'time decoding is a pure function of the stored numbers and units',
+    'C16': 'lookup results are a pure function of coordinate and query; its one impurity (in-place shift of the coordinate) is an isolation defect, detected and fixed under C05',
+    'C17': 'interpolation weights and conservation are algebraic laws over grids',
+    'C20': 'worst-case numerical bound over fields; the file clauses involve a stateless memmap reader and a memmap writer whose flush is unobservable inside one OS instance, so no crash or schedule the simulator can produce changes the verdict',
+}
+
+# claimed by DESIGN.md but whose check is not built/registered yet
+PENDING = {
+    'C07': 'planned (DESIGN.md section 5, crash-at-acknowledgement image): check not registered yet',
+    'C08': 'planned (DESIGN.md section 5): check not registered yet',
+    'C09': 'planned (DESIGN.md section 5): check not registered yet',
+    'C13': 'planned (DESIGN.md section 5, access-schedule over hidden cursors): check not registered yet',
+    'C14': 'planned (DESIGN.md section 4, crash-point enumeration): check not registered yet',
+    'C15': 'planned (DESIGN.md section 4, history refinement): check not registered yet',
+    'C18': 'planned (DESIGN.md section 5): check not registered yet',
+    'C19': 'planned (DESIGN.md section 5): check not registered yet',
+}
